@@ -133,3 +133,25 @@ class QuaIO(GameIO):
             if norm(dk["meta"].get(f)) != norm(v):
                 out.append(f"metadata {f}: {dk['meta'].get(f)!r} vs first generation {v!r}")
         return [x for x in out if x]
+
+
+def _qua_pipeline_valid(self, doc, c) -> str:
+    from .files_osu import _grid_ok
+
+    keys = {"Keys4": 4, "Keys7": 7, "Keys8": 8}.get(doc["meta"].get("Mode"), 4)
+    if keys not in c.get("keys", [keys]):
+        return "key count"
+    if not doc["objs"] or max(o["Lane"] for o in doc["objs"]) != keys:
+        return "last lane unused"
+    if any("Bpm" not in t for t in doc["tps"]) or not doc["tps"]:
+        return "tempo point without Bpm"
+    if c.get("grid"):
+        tempo = sorted((t.get("StartTime", 0), t["Bpm"]) for t in doc["tps"])
+        if c.get("t0_zero") and tempo[0][0] != 0:
+            return "first tempo point not at 0"
+        times = [o.get("StartTime", 0) for o in doc["objs"]] + [o["EndTime"] for o in doc["objs"] if "EndTime" in o]
+        return _grid_ok(tempo, times)
+    return ""
+
+
+QuaIO.valid_pipeline_doc = _qua_pipeline_valid
